@@ -103,6 +103,9 @@ func (h *handshake) Start(node gen.NodeHandshake, conn net.Conn, options gen.Han
 	if intro2.Node == node.Name() {
 		return result, fmt.Errorf("malformed handshake Introduce message (same name)")
 	}
+	if err := checkIntroduce(intro2); err != nil {
+		return result, err
+	}
 
 	// everything looks good. just send an Accept message
 	if err := h.writeMessage(conn, MessageAccept{}); err != nil {
